@@ -132,6 +132,25 @@ class Twin:
             return inte
         return integrand
 
+    def _corr_stable_integrand(self, tau):
+        """The library's correlation integrand with 1 - exp(-w/T) written as
+        -expm1(-w/T) (no cancellation for w << T); otherwise identical."""
+        sd = self.obj.spectral_density
+        temp = self.temp
+
+        def integrand(w):
+            if np.exp(-w / temp) > np.finfo(float).eps:
+                inte = sd(w) \
+                    * (np.exp(-1j * tau * w)
+                       + np.exp(-(1 / temp * w - 1j * tau * w))) \
+                    / (-np.expm1(-w / temp))
+            else:
+                inte = sd(w) \
+                    * (np.exp(-1j * w * tau)
+                       + np.exp(-(1 / temp * w - 1j * tau * w)))
+            return inte
+        return integrand
+
     # -- values ----------------------------------------------------------------
     def _integrate(self, f, tail):
         val = _cquad(f, 0.0, self.wc, self.epsrel, self.limit)
@@ -165,8 +184,11 @@ class Twin:
         key = ("corr", float(tau), kind)
         if key in self.memo:
             return self.memo[key]
-        f = self._corr_replica_integrand(tau)
-        val = self._integrate(f, "inf" if kind == "replica" else "finite")
+        if kind == "stable":
+            f = self._corr_stable_integrand(tau)
+        else:
+            f = self._corr_replica_integrand(tau)
+        val = self._integrate(f, "finite" if kind == "finite" else "inf")
         self.memo[key] = val
         return val
 
